@@ -17,6 +17,10 @@
 import BufrModel.Basic.Desc
 namespace Bufr
 
+/-- Every Table B entry carries the id it is filed under (`ElementDescriptor(id_, *fields)` in
+    `TableB.__init__`; true by construction of every table the driver loads). -/
+def Tables.Keyed (T : Tables) : Prop := ∀ id e, T.b id = some e → e.id = id
+
 /-! ### original_descriptor_ids -/
 
 mutual
@@ -119,12 +123,9 @@ def defaultMasterTableVersion : Nat := 33
 def getTablesSn (mtn centre sub mtv ltv : Nat) : TablesSn × Option TablesSn :=
   (⟨mtn, 0, 0, mtv⟩, if ltv ≠ 0 then some ⟨mtn, centre, sub, ltv⟩ else none)
 
-/-- `normalize_tables_sn`.  `isMaster n` : `isdir(root/n)`; `isDir sn` : `isdir(root/n/c_s/v)`.
-    Order of the checks as in the code: master table number, then WMO version (under the possibly
-    replaced master number), then the local candidates `centre_sub`, `centre_0`. -/
-def normalizeTablesSn (isMaster : Nat → Bool) (isDir : TablesSn → Bool)
-    (mtn centre sub mtv ltv : Nat) : TablesSn × Option TablesSn :=
-  let m := if isMaster mtn then mtn else defaultMasterTableNumber
+/-- `normalize_tables_sn` below the (possibly replaced) master table number `m`:
+    WMO version, then the local candidates `centre_sub`, `centre_0`. -/
+def normalizeUnder (isDir : TablesSn → Bool) (m centre sub mtv ltv : Nat) : TablesSn × Option TablesSn :=
   let wmo : TablesSn := if isDir ⟨m, 0, 0, mtv⟩ then ⟨m, 0, 0, mtv⟩ else ⟨m, 0, 0, defaultMasterTableVersion⟩
   let loc : Option TablesSn :=
     if ltv ≠ 0 then
@@ -133,6 +134,13 @@ def normalizeTablesSn (isMaster : Nat → Bool) (isDir : TablesSn → Bool)
       else none
     else none
   (wmo, loc)
+
+/-- `normalize_tables_sn`.  `isMaster n` : `isdir(root/n)`; `isDir sn` : `isdir(root/n/c_s/v)`.
+    Order of the checks as in the code: master table number first, everything else under the
+    (possibly replaced) master number. -/
+def normalizeTablesSn (isMaster : Nat → Bool) (isDir : TablesSn → Bool)
+    (mtn centre sub mtv ltv : Nat) : TablesSn × Option TablesSn :=
+  normalizeUnder isDir (if isMaster mtn then mtn else defaultMasterTableNumber) centre sub mtv ltv
 
 /-! ### dispatch skeleton of the coder's template walk
 
